@@ -46,7 +46,7 @@ impl AsRawMsg for Msg {
             if c.len() > 63 {
                 return Err(Error(String::from("Cong alg name too long")));
             } else {
-                buf.copy_from_slice(c.as_bytes());
+                buf[..c.len()].copy_from_slice(c.as_bytes());
             }
         }
 
